@@ -53,6 +53,40 @@ main(int argc, char **argv)
                         return 2;
                 return replay_file(argv[2], flag(argc, argv, "-v"));
         }
+        if (cmd == "blame") {
+                // debugging aid: which instruction left a stack residue (C13)? Runs the replay's plan once to find the first
+                // stack residue, then again single-stepping the call that left it.
+                if (argc < 3)
+                        return 2;
+                std::string txt;
+                if (!read_file(argv[2], txt))
+                        return 2;
+                Plan p;
+                if (!plan_from_json(txt, p))
+                        return 2;
+                preempt_install();
+                g_last_residue = Watch();
+                g_watch = Watch();
+                const uint64_t base = g_calls_total;
+                (void) run_plan(p);
+                if (!g_last_residue.addr) {
+                        printf("no stack residue in this plan\n");
+                        return 0;
+                }
+                Watch w = g_last_residue;
+                const uint64_t rel = w.call_no - base;
+                g_watch = Watch();
+                g_watch.call_no = g_calls_total + rel;
+                g_watch.addr = w.addr;
+                g_watch.val = w.val;
+                (void) run_plan(p);
+                printf("residue %016llx at %#llx (call #%llu of the run): written by the instruction at %#llx (%llu instructions stepped)\n",
+                       (unsigned long long) w.val, (unsigned long long) w.addr, (unsigned long long) rel,
+                       (unsigned long long) g_watch.hit_rip, (unsigned long long) g_watch.steps);
+                char cmdl[8192];
+                snprintf(cmdl, sizeof cmdl, "addr2line -f -i -e %s %#llx", self, (unsigned long long) g_watch.hit_rip);
+                return system(cmdl);
+        }
         const char *env_seed = getenv("VERIF_SEED");
         uint64_t seed = strtoull(arg(argc, argv, "--seed", env_seed ? env_seed : "1"), nullptr, 0);
         const char *env_tier = getenv("VERIF_TIER");
